@@ -51,6 +51,7 @@ cfg("MC_C02_adder", MaxCmd=1, MaxEv=2, MaxLop=2, MaxPost=0, MaxDisc=0, RS="RS_tw
 cfg("MC_C02_names", MaxCmd=1, MaxEv=1, MaxLop=3, MaxPost=0, MaxDisc=0, RS="RS_two", ES="ES_two", N="N2", L="L2")
 # C03: loss
 cfg("MC_C03_quick", K="K3", MaxCmd=2, MaxEv=0, MaxLop=1, MaxPost=2, MaxDisc=1, RS="RS_two", ES="ES_small", N="N1", L="L2")
+cfg("MC_C03_closer", K="KClose", MaxCmd=3, MaxEv=0, MaxLop=0, MaxPost=1, MaxDisc=1, RS="RS_two", ES="ES_small", N="N1", L="L0")
 cfg("MC_C03_thorough", K="K3", MaxCmd=2, MaxEv=1, MaxLop=1, MaxPost=2, MaxDisc=2, RS="RS_two", ES="ES_two", N="N1", L="L2")
 # historic defects as deviations: each must yield a counterexample
 cfg("Dev_c02_cb_leak", MaxCmd=1, MaxEv=1, MaxLop=1, MaxPost=0, MaxDisc=0, RS="RS_two", ES="ES_small", N="N1", L="L2", Dev="DevLeak")
@@ -65,5 +66,5 @@ cfg("Gen_C01", K="K4", spec="GSpec", inv="", extra="  AllowLose = FALSE\n", MaxC
     RS="RS_big", ES="ES_small", N="N1", L="L0")
 cfg("Gen_C02", spec="GSpec", inv="", extra="  AllowLose = FALSE\n", MaxCmd=3, MaxEv=5, MaxLop=6, MaxPost=0, MaxDisc=0,
     RS="RS_small", ES="ES_big", N="N2", L="L7")
-cfg("Gen_C03", K="K4", spec="GSpec", inv="", extra="  AllowLose = TRUE\n", MaxCmd=4, MaxEv=2, MaxLop=2, MaxPost=3, MaxDisc=2,
+cfg("Gen_C03", K="K5", spec="GSpec", inv="", extra="  AllowLose = TRUE\n", MaxCmd=4, MaxEv=2, MaxLop=2, MaxPost=3, MaxDisc=2,
     RS="RS_big", ES="ES_big", N="N2", L="L5")
